@@ -59,6 +59,7 @@ def autowrap(cls):
 
 
 EXTERNALS = {
+    'Vector3D.__new__': {'kind': 'fresh', 'result': 'ref:Vector3D', 'alloc': True, 'doc': 'raysect new_vector3d: a freshly allocated vector'},
     'rotate_z': {'kind': 'pure', 'result': 'ref:AffineMatrix3D', 'doc': 'raysect rotate_z(angle in degrees) pure'},
     'linspace': {'kind': 'custom', 'fn': linspace, 'doc': 'numpy.linspace contract (evenly spaced, both ends)'},
     'empty': {'kind': 'custom', 'fn': empty, 'doc': 'numpy.empty: fresh array of the given shape'},
@@ -151,10 +152,70 @@ def register(reg):
                   "result[1][a] == y_range[0] + real(a) * (y_range[1] - y_range[0]) / real(y_range[2] - 1))")])
 
 
+BATTERY = {
+    # class -> (module, constructor expression over recording callables, expected inner arguments, vector rotation angle or None)
+    'AxisymmetricMapper': ('cherab.core.math', 'AxisymmetricMapper(f2)', '(hypot(x, y), z)', None),
+    'VectorAxisymmetricMapper': ('cherab.core.math', 'VectorAxisymmetricMapper(vf2)', '(hypot(x, y), z)', 'atan2(y, x)'),
+    'CylindricalTransform': ('cherab.core.math.transform', 'CylindricalTransform(f3)', '(hypot(x, y), atan2(y, x), z)', None),
+    'VectorCylindricalTransform': ('cherab.core.math.transform', 'VectorCylindricalTransform(vf3)', '(hypot(x, y), atan2(y, x), z)', 'atan2(y, x)'),
+    'Swizzle2D': ('cherab.core.math', 'Swizzle2D(f2)', '(y, x)', None),
+}
+
+
+def battery_replay(ctx, o):
+    """A refuted composition obligation of a coordinate wrapper: the real compiled wrapper is evaluated on a battery of points (ordinary,
+    axis, tiny / subnormal, huge) and compared with an independent evaluation (math.hypot / atan2 / cos / sin)."""
+    cls = next((c for c in sorted(BATTERY, key=len, reverse=True) if '.%s.evaluate' % c in o.name), None)
+    if cls is None:
+        return None
+    mod, ctor, inner, angle = BATTERY[cls]
+    from replaylib.native import run_native
+    code = """
+from math import hypot, atan2, cos, sin, isfinite
+from raysect.core.math import Vector3D
+from %s import %s
+seen = []
+def f2(a, b): seen.append((a, b)); return 1.0
+def f3(a, b, c): seen.append((a, b, c)); return 1.0
+def vf2(a, b): seen.append((a, b)); return Vector3D(1.0, 2.0, 0.5)
+def vf3(a, b, c): seen.append((a, b, c)); return Vector3D(1.0, 2.0, 0.5)
+w = %s
+vals = [0.0, 1.0, -2.5, 0.3, 1e-100, -3e-120, 1e-200, -1e-200, 5e-324, -5e-324, 1e150, -1e150, 3.7e-163]
+bad = []; n = 0
+def close(a, b):
+    return a == b or abs(a - b) <= 1e-9 * max(abs(a), abs(b), 1e-300) or abs(a - b) <= 1e-12
+for x in vals:
+    for y in vals:
+        for z in (0.0, -1.5):
+            del seen[:]
+            try:
+                got = w(x, y, z) if %r else w(x, y)
+            except Exception as e:
+                bad.append({"x": x, "y": y, "z": z, "error": repr(e)[:80]}); continue
+            n += 1
+            want = %s
+            if not (len(seen) == 1 and all(close(a, b) for a, b in zip(seen[0], want))):
+                bad.append({"x": x, "y": y, "z": z, "inner_arguments": list(seen[0]) if seen else None, "expected": list(want)})
+            elif %r:
+                phi = %s
+                c, s = cos(phi), sin(phi)
+                ev = (c * 1.0 - s * 2.0, s * 1.0 + c * 2.0, 0.5)
+                if not all(close(a, b) for a, b in zip((got.x, got.y, got.z), ev)):
+                    bad.append({"x": x, "y": y, "z": z, "vector": [got.x, got.y, got.z], "expected": list(ev)})
+print(json.dumps({"cases": n, "bad": bad[:5], "nbad": len(bad)}))
+""" % (mod, cls, ctor, cls != 'Swizzle2D', inner, bool(angle), angle or '0.0')
+    out = run_native(ctx, code, timeout=300)
+    if out and out.get('nbad'):
+        return {'confirmed': True, 'input': out['bad'][0], 'observed': out, 'expected': 'wrapped function evaluated at %s%s' % (inner, ', rotated by ' + angle if angle else '')}
+    return {'confirmed': False, 'input': None, 'observed': out, 'expected': 'wrapped function evaluated at %s' % inner}
+
+
 def native_replay(ctx, o):
     """Replay a refuted remainder obligation on the real compiled code: PeriodicTransform1D hands remainder(x, period) to
     the wrapped function, which records the argument it receives."""
-    if 'remainder' not in o.name or not o.model:
+    if 'remainder' not in o.name:
+        return battery_replay(ctx, o)
+    if not o.model:
         return None
     try:
         x1, x2 = float(o.model.get('x1')), float(o.model.get('x2'))
